@@ -326,6 +326,67 @@ def decorated_local_caller(a, b=2):
   return ('decorated_local', inner(a), Local(a).doubled)
 
 
+def nested_wraps_caller(a, b=2):
+  # a nested function whose decorator and default are calls (evaluated in THIS function's scope)
+  LOG.append(('nested_wraps_caller', a, b))
+
+  def base(v):
+    return v + 1
+
+  @functools.wraps(base)
+  def inner(v, k=abs(b)):
+    if v > 0:
+      return v + k
+    return v - k
+  return ('nested_wraps', inner(a), inner.__name__)
+
+
+class Dispenser(object):
+  """An attribute read with an effect (a property that hands out tickets).  The
+  count lives in the per-operation log, so an operation that legitimately never
+  runs the target (strict mode) leaves nothing behind for the next one."""
+
+  @property
+  def ticket(self):
+    n = 1 + len([e for e in LOG if e[0] == 'ticket'])
+    LOG.append(('ticket', n))
+    return n
+
+
+DISPENSER = Dispenser()
+
+
+def ticket_reader(a, b=2):
+  t = DISPENSER.ticket
+  if a > 0:
+    return ('ticket', t, a + b)
+  return ('ticket', t, a - b)
+
+
+def iter_break(a, b=2):
+  # a loop left early over a one-shot iterator that is read again afterwards
+  it = iter([1, 2, 3, 4, 5, 6])
+  got = ()
+  for v in it:
+    if v > b:
+      break
+    got = got + (v,)
+  rest = tuple(it)
+  LOG.append(('iter_break', a, b, got, rest))
+  return ('iter_break', got, rest)
+
+
+def literal_defaults(a, b=2, step=10):
+  LOG.append(('literal_defaults', a, b, step))
+  if a > 0:
+    return ('literal_defaults', a + step, b)
+  return ('literal_defaults', a - step, b)
+
+
+# the defaults were replaced after the definition: the source text no longer says what they are
+literal_defaults.__defaults__ = (5, 77)
+
+
 class Bag(list):
   """A container: falsy while empty."""
 
@@ -759,6 +820,10 @@ def build_pool(lane, which):
   add('metaclass_call2', 'callable_obj', U.WithMetaAndCall, fnname='__call__')
   add('shadowed_call', 'callable_obj', U.ShadowedCall(), fnname='__call__')
   add('metaclass_call_inherited', 'callable_obj', U.WithSubMeta, fnname='__call__')
+  add('nested_wraps_caller', 'function', U.nested_wraps_caller, fnname='nested_wraps_caller')
+  add('ticket_reader', 'function', U.ticket_reader, fnname='ticket_reader')
+  add('iter_break', 'function', U.iter_break, fnname='iter_break')
+  add('literal_defaults', 'function', U.literal_defaults, fnname='literal_defaults')
   add('exc_state_fn', 'function', U.exc_state_fn, fnname='exc_state_fn')
   add('native_call_obj', 'native', U.NativeCall())
   import operator
@@ -1083,7 +1148,7 @@ RELATED = {
     'fn': ['posixpath_join'],
 }
 
-CONVERTIBLE = ['exc_state_fn', 'exc_state_fn', 'metaclass_call_inherited', 'unregistered_mod_fn', 'caller', 'caller', 'dup_kw_caller', 'multiline_string_method', 'lists_user', 'multi_assign', 'multi_assign', 'super_in_branch', 'twice_caller', 'twice_caller', 'kwonly_required', 'symbolic_eq_callable', 'strict_eq_callable', 'pseudo_file_fn', 'badrepr_method', 'badrepr_callable', 'local_gen_caller', 'decorated_local_caller', 'metaclass_call2', 'shadowed_call', 'fn', 'star_caller', 'nested2', 'raiser_passthrough', 'raiser', 'falsy_bag_method', 'falsy_obj_method', 'nt_method', 'metaclass_call', 'slotted_callable', 'manual_bound', 'fn', 'lam', 'nested', 'bound', 'unbound', 'cmeth', 'cmeth_inst', 'smeth', 'callable',
+CONVERTIBLE = ['nested_wraps_caller', 'ticket_reader', 'iter_break', 'literal_defaults', 'exc_state_fn', 'exc_state_fn', 'metaclass_call_inherited', 'unregistered_mod_fn', 'caller', 'caller', 'dup_kw_caller', 'multiline_string_method', 'lists_user', 'multi_assign', 'multi_assign', 'super_in_branch', 'twice_caller', 'twice_caller', 'kwonly_required', 'symbolic_eq_callable', 'strict_eq_callable', 'pseudo_file_fn', 'badrepr_method', 'badrepr_callable', 'local_gen_caller', 'decorated_local_caller', 'metaclass_call2', 'shadowed_call', 'fn', 'star_caller', 'nested2', 'raiser_passthrough', 'raiser', 'falsy_bag_method', 'falsy_obj_method', 'nt_method', 'metaclass_call', 'slotted_callable', 'manual_bound', 'fn', 'lam', 'nested', 'bound', 'unbound', 'cmeth', 'cmeth_inst', 'smeth', 'callable',
                'decorated', 'caller', 'raiser', 'partial1', 'partial_nested', 'partial_method',
                'partial_chain', 'partial_chain3', 'partial_subclass',
                'mod:malty', 'mod:numpy_like', 'mod:reporting', 'mod:copyx', 'np_sub_overridden',
